@@ -100,7 +100,8 @@ RECURSIVE FieldCombos(_, _)
 FieldCombos(fields, i) ==
   IF i > Len(fields) THEN {<<>>}
   ELSE LET f == fields[i]
-           opts == IF f.tr THEN {Distinct(f.t, f.n)[Len(Distinct(f.t, f.n))]} ELSE SeqToSet(Distinct(f.t, f.n)) IN
+           \* a transient field holds values that differ from each other and from nothing in particular
+           opts == IF f.tr THEN {Distinct(f.t, f.n)[Len(Distinct(f.t, f.n))], TrDefault(f.t)} ELSE SeqToSet(Distinct(f.t, f.n)) IN
        {<<x>> \o rest : x \in opts, rest \in FieldCombos(fields, i + 1)}
 StructVals(D) == {<<20>> \o c : c \in FieldCombos(D.fields, 1)}
 
